@@ -1,13 +1,20 @@
 import Driver.Tok
 import BpModel.Grpc
+import BpModel.GrpcCall
 /- line-protocol handlers of the Grpc area (C11); strings travel as hex of their ASCII bytes (`-` = empty)
 
    GROUTE <hex package|-> <hex service> <hex method>   -> hex of the route
    GCARD <cs 0|1> <ss 0|1>                              -> <helper> <CARDINALITY> <recv> <send>
    GKW <stub timeout|-> <stub deadline|-> <stub metadata|-> <call timeout|-> <call deadline|-> <call metadata|->
-                                                        -> <timeout|-> <deadline|-> <metadata|->      -/
+                                                        -> <timeout|-> <deadline|-> <metadata|->
+   GCALL <uu|us|su|ss> <gen 0|1> <script|-> <fin> <reqs|-> [<schedule of M/S/V>]
+         script: comma-separated  p (pull) | P (pull, at the end of the stream go to fin) | y<n> (yield n) |
+                 e (yield last request + 1000) | d (pull to the end) | D (pull to the end, echoing each request + 1000)
+         fin: ret<n> | retnone | raise<status>;   reqs: comma-separated numbers
+         without a schedule: `call`; with one: `run true schedule` from the start of the call
+                                                        -> q=<0|1> calls=<n> hin=<s<n>|n,…|-> served=<0|1> yielded=<n,…|-> result=<…>  -/
 namespace Drv
-open Bp.Grpc
+open Bp.Grpc Bp.GrpcCall
 
 structure GrpcSt where
   dummy : Unit := ()
@@ -19,6 +26,79 @@ def optTok (s : String) : Option String := if s == "-" then none else some s
 def showTok : Option String → String
   | none => "-"
   | some s => s
+
+inductive GAct
+  | pull | pullStop | yieldC (n : Nat) | yieldLast | drain (echo : Bool)
+
+/-- "pull the request iterator to its end" with room for `fuel` requests (a handler tree is well founded: one tree
+    per call, `fuel` above the number of requests of that call) -/
+def gDrain (echo : Bool) (k : Nat → HProg Nat Nat) : Nat → Nat → HProg Nat Nat
+  | 0, last => k last
+  | f + 1, last => .recv fun a =>
+    match a with
+    | none => k last
+    | some x => if echo then .yield (x + 1000) (gDrain echo k f x) else gDrain echo k f x
+
+def gBuild (fuel : Nat) (fin : HProg Nat Nat) : List GAct → Nat → HProg Nat Nat
+  | [], _ => fin
+  | .pull :: r, last => .recv fun a => gBuild fuel fin r (a.getD last)
+  | .pullStop :: r, _ => .recv fun a =>
+    match a with
+    | none => fin
+    | some x => gBuild fuel fin r x
+  | .yieldC n :: r, last => .yield n (gBuild fuel fin r last)
+  | .yieldLast :: r, last => .yield (last + 1000) (gBuild fuel fin r last)
+  | .drain e :: r, last => gDrain e (fun l => gBuild fuel fin r l) fuel last
+
+def gAct (s : String) : Option GAct :=
+  if s == "p" then some .pull else if s == "P" then some .pullStop else if s == "e" then some .yieldLast
+  else if s == "d" then some (.drain false) else if s == "D" then some (.drain true)
+  else if s.startsWith "y" then (parseNat (s.drop 1).toString).map GAct.yieldC else none
+
+def gList {α : Type} (f : String → Option α) (s : String) : Option (List α) :=
+  if s == "-" then some [] else (s.splitOn ",").mapM f
+
+def gFin (s : String) : Option (HProg Nat Nat) :=
+  if s == "retnone" then some (.ret none)
+  else if s.startsWith "ret" then (parseNat (s.drop 3).toString).map fun n => .ret (some n)
+  else if s.startsWith "raise" then (parseNat (s.drop 5).toString).map fun n => .raise ⟨n, none⟩
+  else none
+
+def gCard (s : String) : Option Card :=
+  if s == "uu" then some .unaryUnary else if s == "us" then some .unaryStream
+  else if s == "su" then some .streamUnary else if s == "ss" then some .streamStream else none
+
+def gTask (c : Char) : Option Task :=
+  if c == 'M' then some .M else if c == 'S' then some .S else if c == 'V' then some .V else none
+
+def gShowList (xs : List String) : String := if xs.isEmpty then "-" else ",".intercalate xs
+
+def gShowResult : CResult Nat → String
+  | .returned (some n) => s!"ret:{n}"
+  | .returned none => "ret:none"
+  | .grpcError e => s!"grpc:{e.status}"
+  | .protocolError => "protocol"
+  | .closedError => "closed"
+  | .assertionError => "assert"
+  | .hang => "hang"
+
+def gShow (q : Bool) (o : Outcome Nat Nat) : String :=
+  let hin := gShowList (o.hIn.map fun | some n => s!"s{n}" | none => "n")
+  let ys := gShowList (o.yielded.map toString)
+  s!"q={if q then 1 else 0} calls={o.calls} hin={hin} served={if o.served then 1 else 0} yielded={ys} result={gShowResult o.result}"
+
+def gCall (card gen script fin reqs : String) (sched : Option String) : Option String := do
+  let card ← gCard card
+  let acts ← gList gAct script
+  let fin ← gFin fin
+  let reqs ← gList parseNat reqs
+  let h : Handler Nat Nat := ⟨gen == "1", fun r => gBuild (reqs.length + 2) fin acts (r.getD 0)⟩
+  match sched with
+  | none => some (gShow true (call card h reqs))
+  | some s =>
+    let σ ← s.toList.mapM gTask
+    let c := run true σ (init (helperProg (α := Unit) card [] ⟨none, none, none⟩ reqs) (rpcShape card) h)
+    some (gShow (quiescent true c) (outcome c))
 
 def handleGrpc (st : GrpcSt) : List String → Option (GrpcSt × String)
   | ["GROUTE", p, s, m] => do
@@ -33,6 +113,8 @@ def handleGrpc (st : GrpcSt) : List String → Option (GrpcSt × String)
   | ["GKW", a, b, c, d, e, f] =>
     let r := resolveKw (α := String) ⟨optTok a, optTok b, optTok c⟩ ⟨optTok d, optTok e, optTok f⟩
     some (st, s!"{showTok r.timeout} {showTok r.deadline} {showTok r.metadata}")
+  | ["GCALL", card, gen, script, fin, reqs] => (gCall card gen script fin reqs none).map fun r => (st, r)
+  | ["GCALL", card, gen, script, fin, reqs, sched] => (gCall card gen script fin reqs (some sched)).map fun r => (st, r)
   | _ => none
 
 end Drv
